@@ -30,6 +30,7 @@ func runC09(c *Ctx) {
 	c09Pool(c)
 	c09PrivateBytes(c)
 	c09QuestionMatch(c)
+	c09OnlyCloseNow(c)
 }
 
 func c09Shared(c *Ctx) {
